@@ -18,6 +18,12 @@ use std::time::Instant;
 
 pub const VERIF_ROOT: &str = "/verif";
 
+/// Where evidence and replay files go: /verif, unless VERIF_OUT redirects them (used only by the
+/// mutation-testing helper so that a run against a scratch copy does not overwrite real evidence).
+pub fn out_root() -> String {
+    std::env::var("VERIF_OUT").unwrap_or_else(|_| VERIF_ROOT.to_string())
+}
+
 #[derive(Clone, Copy, Debug, PartialEq, Eq)]
 pub enum Tier {
     Quick,
@@ -535,7 +541,7 @@ pub struct PropInfo {
 }
 
 pub fn write_replay(prop: &str, f: &Failure) -> PathBuf {
-    let dir = PathBuf::from(format!("{VERIF_ROOT}/replays/{prop}"));
+    let dir = PathBuf::from(format!("{}/replays/{prop}", out_root()));
     std::fs::create_dir_all(&dir).ok();
     let body = json!({"property": prop, "driver": f.driver, "case": f.case, "message": f.message});
     let text = serde_json::to_string_pretty(&body).unwrap();
@@ -608,7 +614,7 @@ pub fn finish(
         "wall_s": wall,
         "violations": violations,
     });
-    let dir = format!("{VERIF_ROOT}/evidence");
+    let dir = format!("{}/evidence", out_root());
     std::fs::create_dir_all(&dir).ok();
     let path = format!("{dir}/{}.json", info.id);
     if let Err(e) = std::fs::write(&path, serde_json::to_string_pretty(&ev).unwrap()) {
